@@ -61,6 +61,32 @@ func encodeObj(o bin.Object) ([]byte, error) {
 	return b.Buf, nil
 }
 
+var usedBuf []byte
+
+// encodeObjUsed encodes o into a buffer that already holds pre bytes and whose
+// spare capacity (at least hint+64 bytes) is filled with 0xA5, and returns
+// what Encode appended. The bytes already there must stay as they were.
+func encodeObjUsed(o bin.Object, pre, hint int) ([]byte, error) {
+	need := pre + hint + 64
+	if cap(usedBuf) < need {
+		usedBuf = make([]byte, need*2)
+	}
+	dirty := usedBuf[:need]
+	for i := range dirty {
+		dirty[i] = 0xA5
+	}
+	b := bin.Buffer{Buf: usedBuf[:pre]}
+	if err := o.Encode(&b); err != nil {
+		return nil, err
+	}
+	for i := 0; i < pre; i++ {
+		if b.Buf[i] != 0xA5 {
+			return nil, fmt.Errorf("Encode changed byte %d of the %d bytes the buffer held before", i, pre)
+		}
+	}
+	return append([]byte(nil), b.Buf[pre:]...), nil
+}
+
 // errClass reduces an Encode error to a short class for the statistics.
 func errClass(err error) string {
 	s := err.Error()
@@ -104,12 +130,16 @@ func roundTrip(ft fataler, ci *ctorInfo, p reflect.Value) (rejected string, encL
 	if diff := tlEqual(p, fresh, ci.short); diff != "" {
 		ft.Fatalf("%s: decoded value differs at %s\nvalue: %s\nbytes: %x", ci, diff, show(), b1)
 	}
-	b2, err := encodeObj(fresh.Interface().(bin.Object))
+	// the re-encoding goes into a buffer that was used before (as the pooled
+	// and Reset buffers of the senders are): its backing array is dirty, and
+	// it may already hold a word. The bytes must not depend on that.
+	pre := 4 * ((len(b1) / 4) % 2)
+	b2, err := encodeObjUsed(fresh.Interface().(bin.Object), pre, len(b1))
 	if err != nil {
 		ft.Fatalf("%s: re-encode of the decoded value failed: %v\nvalue: %s", ci, err, show())
 	}
 	if !bytes.Equal(b1, b2) {
-		ft.Fatalf("%s: re-encoding is not byte-identical\nfirst:  %x\nsecond: %x\nvalue: %s", ci, b1, b2, show())
+		ft.Fatalf("%s: re-encoding (into a used buffer holding %d bytes, dirty spare capacity) is not byte-identical\nfirst:  %x\nsecond: %x\nvalue: %s", ci, pre, b1, b2, show())
 	}
 	// 2. tmap.Constructor.New(id)
 	o2 := ci.schema.tmap.New(ci.id)
